@@ -9,14 +9,17 @@
      imports[f]  the ordered import list of file f
      req         the requested file names, in request order
      plan[f]     what the resolver does for f: "ok" | "err" | "panic" | "short"
-     par         MaxParallelism (number of permits)  cancels = how many external cancellations may still happen.             *)
+     par         MaxParallelism (number of permits)
+     ovr         TRUE iff the resolver overrides descriptor.proto (file DP): every other file that does
+                 not import DP explicitly then depends on it implicitly (compiler.go: wantsDescriptorProto)  cancels = how many external cancellations may still happen.             *)
 EXTENDS Naturals, Sequences, FiniteSets, TLC
 
 CONSTANTS Files,        \* set of file names
-          Configs,      \* set of records [imports, req, plan, par]
+          DP,           \* the file that plays google/protobuf/descriptor.proto (an element of Files, or a non-file)
+          Configs,      \* set of records [imports, req, plan, par, ovr]
           MaxCancels    \* 0 or 1: external cancellation of the caller's context
 
-VARIABLES imports, req, plan, par,
+VARIABLES imports, req, plan, par, ovr,
           created,      \* DOMAIN of executor.results
           pc,           \* per file task: program counter
           idx,          \* per file task: loop / wait index (1-based)
@@ -30,12 +33,18 @@ VARIABLES imports, req, plan, par,
           mpc, midx, mres,   \* the goroutine that called Compile
           ctxDone, cancels
 
-cfgvars == <<imports, req, plan, par>>
-vars == <<imports, req, plan, par, created, pc, idx, blocked, stack, checked, sem, holding, out,
+cfgvars == <<imports, req, plan, par, ovr>>
+vars == <<imports, req, plan, par, ovr, created, pc, idx, blocked, stack, checked, sem, holding, out,
           reports, mpc, midx, mres, ctxDone, cancels>>
 
 Range(s) == {s[i] : i \in 1..Len(s)}
 Contains(s, x) == \E i \in 1..Len(s) : s[i] = x
+
+(* implicit dependency on an overridden descriptor.proto *)
+(* hasOverrideDescriptorProto: the resolver is probed once; an error or a (recovered) panic of that
+   probe means "not overridden" *)
+Wants(f) == ovr /\ plan[DP] \notin {"err", "panic"} /\ f # DP /\ ~Contains(imports[f], DP)
+EffImports(f) == IF Wants(f) THEN Append(imports[f], DP) ELSE imports[f]
 
 -----------------------------------------------------------------------------
 (* Graph facts the properties talk about (from the statement, not from the code). *)
@@ -61,7 +70,7 @@ RealCycle(sq, d) == /\ Len(sq) >= 1
 -----------------------------------------------------------------------------
 (* the state in which Compile is entered, for configuration c *)
 InitVal(c) ==
-  [imports |-> c.imports, req |-> c.req, plan |-> c.plan, par |-> c.par,
+  [imports |-> c.imports, req |-> c.req, plan |-> c.plan, par |-> c.par, ovr |-> c.ovr,
    created |-> {}, pc |-> [f \in Files |-> "none"], idx |-> [f \in Files |-> 0],
    blocked |-> [f \in Files |-> <<>>], stack |-> [f \in Files |-> <<>>],
    checked |-> [f \in Files |-> {}], sem |-> c.par, holding |-> [f \in Files |-> FALSE],
@@ -70,7 +79,7 @@ InitVal(c) ==
 
 Init ==
   \E c \in Configs : LET v == InitVal(c) IN
-    /\ imports = v.imports /\ req = v.req /\ plan = v.plan /\ par = v.par
+    /\ imports = v.imports /\ req = v.req /\ plan = v.plan /\ par = v.par /\ ovr = v.ovr
     /\ created = v.created /\ pc = v.pc /\ idx = v.idx /\ blocked = v.blocked /\ stack = v.stack
     /\ checked = v.checked /\ sem = v.sem /\ holding = v.holding /\ out = v.out
     /\ reports = v.reports /\ mpc = v.mpc /\ midx = v.midx /\ mres = v.mres
@@ -143,15 +152,15 @@ Find(f) ==
        [] plan[f] = "panic" -> pc' = [pc EXCEPT ![f] = "unwind"] /\ UNCHANGED <<blocked, idx, out>>
        [] plan[f] = "short" -> Finish(f, "read") /\ UNCHANGED <<blocked, idx>>
        [] OTHER ->
-            IF imports[f] = <<>>
+            IF EffImports(f) = <<>>
               THEN /\ pc' = [pc EXCEPT ![f] = "link"] /\ UNCHANGED <<blocked, idx, out>>
-              ELSE /\ blocked' = [blocked EXCEPT ![f] = imports[f]]
+              ELSE /\ blocked' = [blocked EXCEPT ![f] = EffImports(f)]
                    /\ idx' = [idx EXCEPT ![f] = 1]
-                   /\ pc' = [pc EXCEPT ![f] = "loop"] /\ UNCHANGED out
+                   /\ pc' = [pc EXCEPT ![f] = IF imports[f] = <<>> THEN "loopdp" ELSE "loop"] /\ UNCHANGED out
   /\ UNCHANGED <<cfgvars, created, stack, checked, sem, holding, reports, mpc, midx, mres, ctxDone, cancels>>
 
 (* after one import has been checked: next import, or release the permit and wait *)
-AfterCheck(f, i) == IF i = Len(imports[f]) THEN "rel" ELSE "loop"
+AfterCheck(f, i) == IF i = Len(imports[f]) THEN (IF Wants(f) THEN "loopdp" ELSE "rel") ELSE "loop"
 
 (* one iteration of `for i, dep := range Dependency` up to and including e.compile(dep) *)
 Loop(f) ==
@@ -173,6 +182,14 @@ Loop(f) ==
                          /\ UNCHANGED idx
                /\ UNCHANGED <<out, reports>>
   /\ UNCHANGED <<cfgvars, blocked, sem, holding, mpc, midx, mres, ctxDone, cancels>>
+
+(* descriptorProtoRes = t.e.compile(ctx, descriptorProtoPath): the implicit dependency is created
+   after the loop and is NOT cycle-checked *)
+LoopDP(f) ==
+  /\ pc[f] = "loopdp"
+  /\ created' = created \cup {DP}
+  /\ pc' = [pc EXCEPT ![f] = "rel", ![DP] = IF DP \in created THEN pc[DP] ELSE "acq"]
+  /\ UNCHANGED <<cfgvars, idx, blocked, stack, checked, sem, holding, out, reports, mpc, midx, mres, ctxDone, cancels>>
 
 (* drop exhausted frames (purely local) *)
 RECURSIVE Normalize(_)
@@ -222,7 +239,7 @@ Release(f) ==
   /\ pc[f] = "rel"
   /\ sem' = sem + 1
   /\ holding' = [holding EXCEPT ![f] = FALSE]
-  /\ pc' = [pc EXCEPT ![f] = "wait"]
+  /\ pc' = [pc EXCEPT ![f] = IF imports[f] = <<>> THEN "waitdp" ELSE "wait"]
   /\ UNCHANGED <<cfgvars, created, idx, blocked, stack, checked, out, reports, mpc, midx, mres, ctxDone, cancels>>
 
 (* select { <-res.ready ; <-ctx.Done() } on the idx-th import *)
@@ -233,13 +250,24 @@ WaitReady(f) ==
         /\ IF out[d] # "ok"
              THEN Finish(f, out[d]) /\ UNCHANGED idx          \* the dependency's error is returned
              ELSE /\ IF idx[f] = Len(imports[f])
-                       THEN pc' = [pc EXCEPT ![f] = "unblock"] /\ UNCHANGED idx
+                       THEN pc' = [pc EXCEPT ![f] = IF Wants(f) THEN "waitdp" ELSE "unblock"] /\ UNCHANGED idx
                        ELSE idx' = [idx EXCEPT ![f] = @ + 1] /\ UNCHANGED pc
                   /\ UNCHANGED out
   /\ UNCHANGED <<cfgvars, created, blocked, stack, checked, sem, holding, reports, mpc, midx, mres, ctxDone, cancels>>
 
 WaitCtx(f) ==
   /\ pc[f] = "wait" /\ ctxDone
+  /\ Finish(f, "ctx")
+  /\ UNCHANGED <<cfgvars, created, idx, blocked, stack, checked, sem, holding, reports, mpc, midx, mres, ctxDone, cancels>>
+
+(* select on descriptorProtoRes.ready: a failure of the implicit dependency is ignored *)
+WaitDPReady(f) ==
+  /\ pc[f] = "waitdp" /\ out[DP] # "pending"
+  /\ pc' = [pc EXCEPT ![f] = "unblock"]
+  /\ UNCHANGED <<cfgvars, created, idx, blocked, stack, checked, sem, holding, out, reports, mpc, midx, mres, ctxDone, cancels>>
+
+WaitDPCtx(f) ==
+  /\ pc[f] = "waitdp" /\ ctxDone
   /\ Finish(f, "ctx")
   /\ UNCHANGED <<cfgvars, created, idx, blocked, stack, checked, sem, holding, reports, mpc, midx, mres, ctxDone, cancels>>
 
@@ -280,7 +308,7 @@ FinalRelease(f) ==
 
 TaskStep(f) == \/ AcquireOk(f) \/ AcquireFail(f) \/ Find(f) \/ Loop(f) \/ CheckRead(f) \/ CheckLookup(f)
                \/ Release(f) \/ WaitReady(f) \/ WaitCtx(f) \/ Unblock(f) \/ Link(f) \/ FinalRelease(f)
-               \/ PanicRelease(f) \/ PanicFail(f)
+               \/ PanicRelease(f) \/ PanicFail(f) \/ LoopDP(f) \/ WaitDPReady(f) \/ WaitDPCtx(f)
 MainStep == MainStart \/ MainWaitReady \/ MainWaitCtx \/ MainReturn
 
 (* explicit stuttering once everything is over, so that TLC's deadlock check means a real deadlock *)
